@@ -255,9 +255,14 @@ func checkMain(args []string) int {
 	os.RemoveAll(outDir)
 	os.MkdirAll(outDir, 0o755)
 
-	timeout := 20 * time.Minute
+	timeout := 8 * time.Minute
 	if *tier == "thorough" {
 		timeout = 3 * time.Hour
+	}
+	if v := os.Getenv("VERIF_WATCHDOG_S"); v != "" {
+		if x, err := strconv.Atoi(v); err == nil && x > 0 {
+			timeout = time.Duration(x) * time.Second
+		}
 	}
 	type job struct {
 		cmd  *exec.Cmd
